@@ -119,11 +119,11 @@ Lemma cmp_id_gen : forall a b, gen a < gen b -> cmp_id a b = Lt.
 Proof. intros a b H. apply cmp_id_lt_iff. left. exact H. Qed.
 
 (* ---- the textual comparison agrees with the comparison of the parsed pairs ---- *)
-Lemma cmp_raw_parsed : forall s1 s2 g1 d1 g2 d2,
-  parse_revid s1 = Some (g1, d1) -> parse_revid s2 = Some (g2, d2) ->
-  cmp_raw s1 s2 = cmp_to_Z (cmp_id (I g1 d1) (I g2 d2)).
+Lemma cmp_raw_parsed : forall fx s1 s2 g1 d1 g2 d2,
+  parse_revid_gen fx s1 = Some (g1, d1) -> parse_revid_gen fx s2 = Some (g2, d2) ->
+  cmp_raw_gen fx s1 s2 = cmp_to_Z (cmp_id (I g1 d1) (I g2 d2)).
 Proof.
-  intros s1 s2 g1 d1 g2 d2 H1 H2. unfold cmp_raw, parse_pub.
+  intros fx s1 s2 g1 d1 g2 d2 H1 H2. unfold cmp_raw_gen, parse_pub_gen.
   destruct s1 as [|c1 s1]; [cbn in H1; congruence|].
   destruct s2 as [|c2 s2]; [cbn in H2; congruence|].
   rewrite H1, H2. unfold cmp_id; cbn [gen dig].
@@ -132,14 +132,15 @@ Proof.
   destruct (cmp_dig d1 d2); reflexivity.
 Qed.
 
-(* every accepted textual id has generation >= 1 *)
-Lemma parse_revid_gen_pos : forall s g d, parse_revid s = Some (g, d) -> 1 <= g.
+(* every accepted textual id has generation >= 1 (old and repaired parser) *)
+Lemma parse_revid_gen_pos : forall fx s g d, parse_revid_gen fx s = Some (g, d) -> 1 <= g.
 Proof.
-  intros s g d H. unfold parse_revid in H.
+  intros fx s g d H. unfold parse_revid_gen in H.
   destruct (split_dash s) as [[p d']|]; try congruence.
-  destruct (atoi_pos p) eqn:E; try congruence. inversion H; subst.
+  destruct (atoi_pos p) eqn:E; try congruence.
+  destruct (fx && negb (canonical_prefix p)); try congruence. inversion H; subst.
   unfold atoi_pos in E.
-  destruct (match p with 43 :: r => r | _ => p end); try congruence.
+  destruct (match p with c :: r => if c =? 43 then r else p | [] => p end); try congruence.
   destruct (digits_val 0 (n :: l)); try congruence.
   destruct ((1 <=? n0) && (n0 <=? max_int)) eqn:E2; try congruence.
   inversion E; subst. lia.
